@@ -1,5 +1,6 @@
 """Table and agreement rules: C02 (name resolution / dispatch structure), C07 (formatter-parser tables),
 C19 (TEST response and command list)."""
+import re
 from .frontend import AnalysisBroken, node_pos
 from .interp import trace_paths, trace_events, trace_count, is_lin, SELF, State
 from .lin import Lin, INF
@@ -47,6 +48,7 @@ def c19(ctx):
     TYPE[(E['CAT_VAR_BUF_STRING'], None)] = 'STRING'
     ACC = {E['CAT_VAR_ACCESS_READ_WRITE']: 'RW', E['CAT_VAR_ACCESS_READ_ONLY']: 'RO', E['CAT_VAR_ACCESS_WRITE_ONLY']: 'WO'}
     seen_tokens = {}
+    _printer_results_checked(ctx)
     for which in ('cmd', 'evt'):
         ex, ts = transitions(ctx, which)
         idxloc = ('S', 'index') if which == 'cmd' else ('S', 'unsolicited_fsm', 'index')
@@ -122,7 +124,6 @@ def c19(ctx):
     for k in list(seen_tokens)[:5]:
         ctx.sample({'type,size': k[0], 'access': k[1], 'token': seen_tokens[k]})
     _list_vs_dispatch(ctx)
-    _printer_results_checked(ctx)
     return ctx
 
 
@@ -278,6 +279,7 @@ def _printer_results_checked(ctx):
         if any(c in ('snprintf', 'memcpy') for f in reach for c in idx.calls.get(f, ())):
             printers.add(name)
     n = 0
+    seen_fmt = {}
     for name, fn in m.prog.functions.items():
         def visit(node, parent):
             nonlocal n
@@ -296,6 +298,62 @@ def _printer_results_checked(ctx):
     ctx.extra['printer_call_sites'] = n
     if n < 30:
         raise AnalysisBroken('only %d printer call sites found' % n)
+    # the formatter itself: the length snprintf reports is compared with the space it was given, unless the
+    # directives cannot produce more than the (constant) space
+    nf = 0
+    for name, fn in m.prog.functions.items():
+        for x in walk(fn['_body']):
+            if x.get('kind') == 'BinaryOperator' and x.get('opcode') == '=' or x.get('kind') == 'VarDecl':
+                if x.get('kind') == 'VarDecl':
+                    if not x.get('inner'):
+                        continue
+                    rhs, wid = strip(x['inner'][-1]), x.get('id')
+                else:
+                    rhs = strip(x['inner'][1])
+                    lhs = strip(x['inner'][0])
+                    wid = lhs.get('referencedDecl', {}).get('id') if lhs.get('kind') == 'DeclRefExpr' else None
+                call = rhs
+            elif x.get('kind') == 'CallExpr':
+                call, wid = x, None
+            else:
+                continue
+            if call.get('kind') != 'CallExpr':
+                continue
+            c = strip(call['inner'][0])
+            if not (c.get('kind') == 'DeclRefExpr' and c['referencedDecl'].get('name') == 'snprintf'):
+                continue
+            key = (name, node_pos(call)[1])
+            if wid is None and key in seen_fmt:
+                continue
+            seen_fmt[key] = seen_fmt.get(key) or wid
+    for (name, line), wid in sorted(seen_fmt.items()):
+        fn = m.prog.functions[name]
+        call = [x for x in walk(fn['_body']) if x.get('kind') == 'CallExpr' and node_pos(x)[1] == line
+                and strip(x['inner'][0]).get('referencedDecl', {}).get('name') == 'snprintf'][0]
+        nf += 1
+        size = strip(call['inner'][2])
+        fmt = strip(call['inner'][3])
+        worst = None
+        if fmt.get('kind') == 'StringLiteral':
+            txt = fmt.get('value', '')
+            if '%s' not in txt and '%*' not in txt:
+                worst = len(txt) + 11 * txt.count('%')
+        cap = int(size['value']) if size.get('kind') == 'IntegerLiteral' else None
+        if worst is not None and cap is not None and cap > worst:
+            ctx.check('no-truncation', True, 'src/cat.c:%s:%s' % (line, name), '')
+            continue
+        compared = False
+        for r in [x for x in walk(fn['_body']) if x.get('kind') == 'BinaryOperator' and x.get('opcode') in ('<', '<=', '>', '>=')]:
+            a, b = strip(r['inner'][0]), strip(r['inner'][1])
+            for u, v in ((a, b), (b, a)):
+                if wid is not None and u.get('kind') == 'DeclRefExpr' and u['referencedDecl'].get('id') == wid:
+                    if not (v.get('kind') == 'IntegerLiteral' and int(v['value']) == 0):
+                        compared = True
+        ctx.check('no-truncation', compared, 'src/cat.c:%s:%s' % (line, name),
+                  'the length reported by snprintf is never compared with the space it was given: a text that does not fit is emitted truncated')
+    ctx.extra['formatter_call_sites'] = nf
+    if nf < 1:
+        raise AnalysisBroken('no snprintf call site found')
 
 
 # ------------------------------------------------------------------------------------- C02
@@ -531,6 +589,30 @@ def _match_step(ctx, ts):
 
 
 # ------------------------------------------------------------------------------------- C07
+_WRAP = re.compile(r'^(?:cast[us]\d+|ovf|wrap[us]?\d*)\((.*)\)$')
+_LINSTR = re.compile(r'^(?:(-?\d+)\*|(-))?([A-Z]@[0-9:#]+)(?:([+-]\d+))?$')
+
+
+def _unwrap(a):
+    """a value that went through width conversions (derived atoms named cast..(x), ovf(x), wrap..(x)) back to the
+    linear form x underneath, when x is a linear form of one load atom; anything else is returned unchanged"""
+    for _ in range(6):
+        sg = a.single() if is_lin(a) else None
+        if sg is None or sg[1] != 1 or sg[2] != 0:
+            return a
+        mm = _WRAP.match(sg[0])
+        if not mm:
+            return a
+        inner = _LINSTR.match(mm.group(1))
+        if inner is None:
+            if _WRAP.match(mm.group(1)):
+                a = Lin.atom(mm.group(1))
+                continue
+            return a
+        a = Lin.atom(inner.group(3), -1 if inner.group(2) else int(inner.group(1) or 1), int(inner.group(4) or 0))
+    return a
+
+
 def c07(ctx):
     m = ctx.model
     E = m.prog.enums
@@ -541,6 +623,7 @@ def c07(ctx):
     fmts = {}       # (type, size) -> set of (format string, arg load type)
     esc_fmt = {}    # byte -> escape text
     sep_out = set()
+    idents = []
     for which in ('cmd', 'evt'):
         ex, ts = transitions(ctx, which)
         for t in ts:
@@ -566,6 +649,19 @@ def c07(ctx):
                     elif e['k'] == 'fmt':
                         key = (ty, siz[0] if siz and ty in (T_INT, T_UINT, T_HEX) else None)
                         fmts.setdefault(key, set()).add((e.get('fmt'), tuple(last_rd['itype']) if last_rd is not None and last_rd.get('itype') else None))
+                        # identity: the printed operand is the loaded value itself (or the constant 0 of the write-only branch)
+                        a = e['args'][0] if e.get('args') else None
+                        if ty in (T_INT, T_UINT, T_HEX, T_HB) and last_rd is not None and last_rd.get('atom') and is_lin(a):
+                            a = _unwrap(a)
+                            sg = a.single() if is_lin(a) else None
+                            if not is_lin(a):
+                                idents.append((None, last_rd, a))
+                            elif a.is_const():
+                                idents.append((a.const == 0, last_rd, a))
+                            elif sg is not None and sg[0] == last_rd['atom']:
+                                idents.append((sg[1] == 1 and sg[2] == 0, last_rd, a))
+                            else:
+                                idents.append((None, last_rd, a))
                     elif e['k'] == 'bytecmp' and e['eq'] and ty == T_STR and e['src'][0][0] == 'vdata':
                         pending_cmp = e['const']
                     elif e['k'] == 'copy' and ty == T_STR and pending_cmp is not None and e.get('text'):
@@ -614,6 +710,19 @@ def c07(ctx):
         ctx.check('directive', set(x[0] for x in got) == {f}, site, 'variable type %s size %s is formatted with %s (expected %s)' % (key[0], key[1], sorted(map(str, got)), f))
         if key[0] == T_HB:
             ctx.check('directive', all(x[1] in ((8, False), None) for x in got), site, 'hex-buffer bytes are formatted from %s (sign extension would print more than two digits)' % sorted(map(str, got)))
+    seen_id = set()
+    n_same = 0
+    for ok, e, a in idents:
+        k = (e['fn'], e['line'], repr(a))
+        if k in seen_id:
+            continue
+        seen_id.add(k)
+        if ok is None:
+            continue        # an operand that is not a linear form of the load alone: not decided
+        n_same += 1
+        ctx.check('identity', ok, 'src/cat.c:%s:%s' % (e['line'], e['fn']), 'the formatted operand is %r, not the value loaded from the variable' % (a,))
+    if n_same < 4:
+        raise AnalysisBroken('operand of the numeric formatters not related to the load (%d instances)' % n_same)
     # escapes: what the formatter writes for a byte must decode to that byte
     ctx.extra['formatter_escapes'] = {str(k): v for k, v in esc_fmt.items()}
     ctx.extra['parser_escapes'] = {str(k): v for k, v in esc_par.items()}
